@@ -6,6 +6,15 @@ module-level ``_make_unquote_part`` calls *through the body of that function*
 not the table text), safe sets are folded from the ``quote`` calls, codec names
 from the two dances, and the environ readers / writers are judged by a small
 flow-sensitive origin analysis (``_c15_helpers.Flow``).
+
+The rules are written against roles, not statement shapes: values are followed
+through private helpers (nested functions, methods of the same class, module-level
+functions, callables passed as arguments, lambdas) with their arguments bound, and
+through tuple returns that the caller unpacks; comprehensions are read like the
+append loops they replace; the walk over the split pieces of the partial unquoter
+is judged by enumerating what one iteration emits (pairwise iterator walk,
+``enumerate`` + parity test, ``zip`` over the two slices, slice assignment);
+``rsplit(sep, 1)`` / ``rpartition`` / ``rfind`` + slicing are the same peeling.
 """
 
 from __future__ import annotations
@@ -14,13 +23,14 @@ import ast
 import itertools
 import re
 import string
+import typing as t
 
 from .. import astq
 from ..cfg import cfg_of
 from ..fold import Folder, RegexConst, Unfoldable, group_count
 from ..loader import AnalysisError, FuncInfo, dotted, norm, walk_no_nested
 from ..report import Ctx
-from ._c15_helpers import TEXT_KEYS, Flow, Leaf, codec_kind, escapes, expand, text_class
+from ._c15_helpers import TEXT_KEYS, Flow, Leaf, Scope, codec_kind, escapes, expand, slice_peel, text_class
 
 LEVEL_TEXT = (
     "Static decision of structural clauses of C15 on /repo's current source: (R15.1) for every URL component, the "
@@ -36,7 +46,8 @@ LEVEL_TEXT = (
     "crosswise inverse compositions of UTF-8 and latin-1; (R15.5) the environ builder and the dev server store only "
     "tunnelled text in PATH_INFO / SCRIPT_NAME / QUERY_STRING and the request-side readers let none of it escape "
     "undecoded; (R15.6) DispatcherMiddleware writes back only untouched pieces of the tunnelled values it read, "
-    "SCRIPT_NAME first, on every path to the mounted app. It decides these necessary clauses, not the fixpoint law "
+    "SCRIPT_NAME first (segments peeled off the right end only into the remainder), on every path to the mounted app. "
+    "Helper functions the judged functions call are looked into (one level of extraction, arguments bound). It decides these necessary clauses, not the fixpoint law "
     "over all URLs, not IDNA, and not the dispatcher's longest-mount choice / concatenation invariant."
 )
 TRUSTED = [
@@ -74,12 +85,31 @@ def _spellings(b: int) -> list[str]:
     return sorted({"%" + "".join(p) for p in itertools.product(*[(c.lower(), c.upper()) for c in hx])})
 
 
-def _fold_safe(folder: Folder, fi: FuncInfo, call: ast.Call, pos: int = 1, default: str = "/") -> str:
+def _module_of(repo, node: ast.AST, default):
+    """the module whose tree contains node (a quote() call may sit in a helper of another module)."""
+    cur = node
+    while getattr(cur, "_parent", None) is not None:
+        cur = cur._parent  # type: ignore[attr-defined]
+    for m in repo.modules.values():
+        if m.tree is cur:
+            return m
+    return default
+
+
+def _fold_safe(folder: Folder, fi: FuncInfo, call: ast.Call, pos: int = 1, default: str = "/", module=None, scope: Scope | None = None) -> str:
     e = astq.arg_or_kw(call, pos, "safe")
     if e is None:
         return default
+    env = {}
+    if scope is not None:
+        # the call sits in a helper: parameters bound to foldable arguments take part in the folding
+        for name, (arg, asc) in scope.bind.items():
+            try:
+                env[name] = folder.expr(asc.module or fi.module, arg)
+            except Unfoldable:
+                pass
     try:
-        v = folder.expr(fi.module, e)
+        v = folder.expr(module or fi.module, e, env) if env else folder.expr(module or fi.module, e)
     except Unfoldable as ex:
         raise AnalysisError(f"{fi.fq}: safe set of `{norm(call)[:60]}` is not foldable: {ex}")
     if isinstance(v, bytes):
@@ -87,6 +117,15 @@ def _fold_safe(folder: Folder, fi: FuncInfo, call: ast.Call, pos: int = 1, defau
     if not isinstance(v, str):
         raise AnalysisError(f"{fi.fq}: safe set of `{norm(call)[:60]}` folds to {type(v).__name__}")
     return v
+
+
+def _fold_text(folder: Folder, m, e: ast.AST) -> str | None:
+    """a string written as a literal or as a module-level constant."""
+    try:
+        v = folder.expr(m, e)
+    except Unfoldable:
+        return None
+    return v if isinstance(v, str) else None
 
 
 def _calls_to(flow: Flow, fi: FuncInfo, fqs: set[str] | str, nested: bool = False) -> list[ast.Call]:
@@ -133,7 +172,7 @@ def run(ctx: Ctx) -> None:
     folder = Folder(repo)
     ctx.rule("R15.1", "per URL component, the compiled keep-quoted pattern of uri_to_iri keeps %XX (every hex-case spelling) for C0 controls, SP, '%', DEL and the component's delimiters (path /?#, query &=+#, userinfo :@/?#), and keeps exactly the folded table")
     ctx.rule("R15.2", "iri_to_uri: path, query, fragment, username, password each pass quote(safe=S) with '%' in S, the structure-carrying delimiters in S (path '/', query '&=+'), S within the RFC 3986 repertoire; hostname passes encode('idna').decode('ascii'); each lands in its own urlunsplit slot. get_current_url quotes every value it joins with that component's terminators unsafe, '%' unsafe for the percent-decoded path values and safe for the still-encoded query bytes; the builder's urlencode keeps & = + # % unsafe")
-    ctx.rule("R15.3", "uri_to_iri routes each component through an unquoter (hostname through the IDNA decoder) into its own urlunsplit slot; the partial unquoter leaves kept escapes untouched, decodes the rest as UTF-8 and re-quotes invalid bytes through the registered error handler, resuming at e.end")
+    ctx.rule("R15.3", "uri_to_iri routes each component through an unquoter (hostname through the IDNA decoder) into its own urlunsplit slot; the partial unquoter emits every free piece of the split unquoted and every kept escape untouched, each once and in list order on every path of its walk, decodes as UTF-8 and re-quotes invalid bytes through the registered error handler, resuming at e.end")
     ctx.rule("R15.4", "_wsgi_encoding_dance = decode(latin-1) o encode(utf-8), _wsgi_decoding_dance = decode(utf-8) o encode(latin-1): crosswise inverse, both codecs total on the other's output")
     ctx.rule("R15.5", "every value stored under PATH_INFO / SCRIPT_NAME / QUERY_STRING by EnvironBuilder.get_environ and the dev server is latin-1 tunnelled (encoding dance) or an ASCII constant; in Request.__init__, Map.bind_to_environ and get_path_info no read of these keys escapes other than decoded (decoding dance) or as raw bytes (.encode(latin-1))")
     ctx.rule("R15.6", "DispatcherMiddleware stores only untouched pieces (slices, concatenations, ASCII constants) of the tunnelled environ values, the new SCRIPT_NAME starts with the old one followed by PATH_INFO pieces, pieces peeled from the right are prepended to the remainder, and both keys are stored on every path to the mounted app")
@@ -167,12 +206,21 @@ def _partial_fn(mk: FuncInfo) -> ast.FunctionDef:
 
 
 def _split_call(mk: FuncInfo, inner: ast.FunctionDef) -> tuple[ast.Call, str]:
-    """``<pattern>.split(<value>)`` inside the returned closure -> (call, name of the pattern variable)."""
+    """``<pattern>.split(<value>)`` (or ``re.split(<pattern>, <value>)``) inside the returned closure ->
+    (call, name of the pattern variable)."""
     params = [a.arg for a in inner.args.args]
     for c in astq.method_calls(inner, "split"):
-        if isinstance(c.func.value, ast.Name) and c.args and isinstance(c.args[0], ast.Name) and c.args[0].id in params:  # type: ignore[attr-defined]
-            return c, c.func.value.id  # type: ignore[attr-defined]
+        recv = c.func.value  # type: ignore[attr-defined]
+        if isinstance(recv, ast.Name) and recv.id == "re" and len(c.args) >= 2 and isinstance(c.args[0], ast.Name) and isinstance(c.args[1], ast.Name) and c.args[1].id in params:
+            return c, c.args[0].id
+        if isinstance(recv, ast.Name) and c.args and isinstance(c.args[0], ast.Name) and c.args[0].id in params:
+            return c, recv.id
     raise AnalysisError(f"{mk.fq}: no `<pattern>.split(<value>)` in the returned closure (pattern slot)")
+
+
+def _maxsplit(c: ast.Call) -> ast.AST | None:
+    via_re = isinstance(c.func, ast.Attribute) and astq.is_name(c.func.value, "re")
+    return astq.arg_or_kw(c, 2 if via_re else 1, "maxsplit")
 
 
 def _unquoters(ctx: Ctx, folder: Folder, mk: FuncInfo) -> dict[str, _Unquoter]:
@@ -212,7 +260,10 @@ def _unquoters(ctx: Ctx, folder: Folder, mk: FuncInfo) -> dict[str, _Unquoter]:
             try:
                 env[tg] = folder.expr(m, val, env)
             except Unfoldable:
-                env.pop(tg, None)
+                try:
+                    env[tg] = _fold_helper_call(folder, m, val, env)
+                except Unfoldable:
+                    env.pop(tg, None)
             except Exception as ex:  # e.g. re.error while folding a broken pattern
                 raise AnalysisError(f"{mk.fq}: folding `{tg}` for {name} failed: {type(ex).__name__}: {ex}")
         rx = env.get(pat_var)
@@ -225,6 +276,48 @@ def _unquoters(ctx: Ctx, folder: Folder, mk: FuncInfo) -> dict[str, _Unquoter]:
     if not out:
         raise AnalysisError(f"no module-level {mk.name}(...) tables in {m.name}")
     return out
+
+
+def _fold_helper_call(folder: Folder, m, val: ast.AST, env: dict, depth: int = 0):
+    """``name = _helper(args)`` where _helper is a straight-line module-level function (assignments, then one return):
+    replay its body on the folded arguments."""
+    if depth > 3 or not (isinstance(val, ast.Call) and isinstance(val.func, ast.Name) and val.func.id in m.functions and not any(isinstance(a, ast.Starred) for a in val.args)):
+        raise Unfoldable("not a call of a module-level helper")
+    fn = m.functions[val.func.id].node
+    a = fn.args
+    names = [x.arg for x in a.posonlyargs + a.args]
+    if a.vararg or a.kwarg or len(val.args) > len(names):
+        raise Unfoldable("helper signature")
+    inner = {}
+    for nm, arg in zip(names, val.args):
+        inner[nm] = folder.expr(m, arg, env)
+    for kw in val.keywords:
+        if kw.arg is None:
+            raise Unfoldable("helper call with **")
+        inner[kw.arg] = folder.expr(m, kw.value, env)
+    for p_, dflt in zip(names[len(names) - len(a.defaults):], a.defaults):
+        if p_ not in inner:
+            inner[p_] = folder.expr(m, dflt)
+    for st in fn.body:
+        if isinstance(st, ast.Expr) and isinstance(st.value, ast.Constant):
+            continue  # docstring
+        if isinstance(st, ast.Return) and st.value is not None:
+            try:
+                return folder.expr(m, st.value, inner)
+            except Unfoldable:
+                return _fold_helper_call(folder, m, st.value, inner, depth + 1)
+        tg = None
+        if isinstance(st, ast.Assign) and len(st.targets) == 1 and isinstance(st.targets[0], ast.Name):
+            tg, v = st.targets[0].id, st.value
+        elif isinstance(st, ast.AnnAssign) and isinstance(st.target, ast.Name) and st.value is not None:
+            tg, v = st.target.id, st.value
+        if tg is None:
+            raise Unfoldable(f"helper {val.func.id} is not straight-line")
+        try:
+            inner[tg] = folder.expr(m, v, inner)
+        except Unfoldable:
+            inner[tg] = _fold_helper_call(folder, m, v, inner, depth + 1)
+    raise Unfoldable("helper without return")
 
 
 def repo_resolve(ctx: Ctx, m, d: str) -> str | None:
@@ -277,7 +370,7 @@ def _split_result_attr(flow: Flow, leaf: Leaf) -> str | None:
     n = leaf.node
     if leaf.kind != "attr" or not isinstance(n, ast.Attribute) or not isinstance(n.value, ast.Name):
         return None
-    src = flow.leaves(n.value)
+    src = flow.leaves(n.value, flow.attr_scope.get(id(n)))
     if src and all(s.kind == "call" and s.key == "urllib.parse.urlsplit" and not s.ops for s in src):
         return n.attr
     return None
@@ -290,8 +383,23 @@ def _unsplit_slots(flow: Flow, fi: FuncInfo) -> tuple[ast.Call, list[ast.AST]]:
     arg = cs[0].args[0] if cs[0].args else None
     if isinstance(arg, ast.Name):
         vals = [v for _, v in astq.assigns_to(fi.node, arg.id)]
-        if len(vals) == 1 and isinstance(vals[0], (ast.Tuple, ast.List)):
+        if len(vals) == 1 and vals[0] is not None:
             arg = vals[0]
+    if isinstance(arg, ast.Call) and isinstance(arg.func, ast.Attribute) and arg.func.attr == "_replace" and not arg.args and isinstance(arg.func.value, ast.Name):
+        # the split result with some fields replaced: the other fields are carried over as they are
+        recv = arg.func.value
+        src = flow.leaves(recv)
+        if src and all(x.kind == "call" and x.key == "urllib.parse.urlsplit" and not x.ops for x in src) and all(k.arg in SLOT for k in arg.keywords):
+            given = {k.arg: k.value for k in arg.keywords}
+            elts: list[ast.AST] = []
+            for name in SLOT:
+                if name in given:
+                    elts.append(given[name])
+                else:
+                    a = ast.copy_location(ast.Attribute(value=recv, attr=name, ctx=ast.Load()), arg)
+                    a._parent = getattr(arg, "_parent", None)  # type: ignore[attr-defined]
+                    elts.append(a)
+            return cs[0], elts
     if not isinstance(arg, (ast.Tuple, ast.List)) or len(arg.elts) != 5 or any(isinstance(x, ast.Starred) for x in arg.elts):
         raise AnalysisError(f"{fi.fq}: urlunsplit argument is not a literal 5-tuple")
     return cs[0], list(arg.elts)
@@ -389,7 +497,7 @@ def _r15_3(ctx: Ctx, folder: Folder, mk: FuncInfo, u2i: FuncInfo, unq: dict[str,
     split_c, pat_var = _split_call(mk, inner)
     mflow = Flow(ctx.repo, mk)
     sc = mflow.scope_of(split_c)
-    ms = astq.arg_or_kw(split_c, 1, "maxsplit")
+    ms = _maxsplit(split_c)
     ctx.ob("R15.3", "every run of kept escapes is split off (no maxsplit)", ms is None or (isinstance(ms, ast.Constant) and ms.value == 0), f"`{norm(split_c)}`", mk, split_c, "split without maxsplit")
     unqs = [c for c in astq.calls(inner) if dotted(c.func) and mflow.resolve(dotted(c.func)) in ("urllib.parse.unquote", "urllib.parse.unquote_plus")]
     if not unqs:
@@ -398,7 +506,7 @@ def _r15_3(ctx: Ctx, folder: Folder, mk: FuncInfo, u2i: FuncInfo, unq: dict[str,
     handlers: dict[str, str] = {}
     for st in m.tree.body:
         if isinstance(st, ast.Expr) and isinstance(st.value, ast.Call) and dotted(st.value.func) and ctx.repo.resolve(m, dotted(st.value.func)) == "codecs.register_error" and len(st.value.args) == 2:
-            k = astq.const_str(st.value.args[0])
+            k = _fold_text(folder, m, st.value.args[0])
             f = dotted(st.value.args[1])
             if k and f:
                 handlers[k] = f
@@ -406,8 +514,8 @@ def _r15_3(ctx: Ctx, folder: Folder, mk: FuncInfo, u2i: FuncInfo, unq: dict[str,
     for uq in unqs:
         enc_e = astq.arg_or_kw(uq, 1, "encoding")
         err_e = astq.arg_or_kw(uq, 2, "errors")
-        enc = astq.const_str(enc_e) if enc_e is not None else "utf-8"
-        err = astq.const_str(err_e) if err_e is not None else "replace"
+        enc = _fold_text(folder, m, enc_e) if enc_e is not None else "utf-8"
+        err = _fold_text(folder, m, err_e) if err_e is not None else "replace"
         arg = norm(uq.args[0]) if uq.args else "?"
         plus = mflow.resolve(dotted(uq.func)) != "urllib.parse.unquote"
         ctx.ob("R15.3", "unquoted bytes are decoded as UTF-8 (and '+' is left alone)", codec_kind(enc) == "U" and not plus, f"`{norm(uq)[:70]}`: encoding={enc!r}", mk, uq, f"unquote encoding of {arg}")
@@ -420,65 +528,524 @@ def _r15_3(ctx: Ctx, folder: Folder, mk: FuncInfo, u2i: FuncInfo, unq: dict[str,
             ok, fact = _handler_shape(ctx, hf)
             ctx.ob("R15.3", f"{hf.name} re-quotes exactly the invalid bytes and resumes after them", ok, fact, hf, hf.node, "handler shape")
 
-    # alternation: the for target takes the even (free) pieces and is unquoted; next() takes the odd (kept) pieces raw
-    loop = None
-    for n in ast.walk(inner):
-        if isinstance(n, ast.For) and isinstance(n.iter, ast.Name) and isinstance(n.target, ast.Name):
-            src = mflow.leaves(n.iter)
-            if any(s.kind == "call" and isinstance(s.node, ast.Call) and dotted(s.node.func) == "iter" and s.node.args and any(x is split_c for x in ast.walk(s.node.args[0])) for s in src):
-                loop = n
-    if loop is None:
-        raise AnalysisError(f"{mk.fq}: no `for piece in <iter(pattern.split(value))>` loop in the closure (alternation slot)")
-    it_name = loop.iter.id  # type: ignore[attr-defined]
-    icfg = sc.cfg
-    head = icfg.node_of(loop)
-    nexts = [c for c in astq.calls(loop) if isinstance(c.func, ast.Name) and c.func.id == "next" and c.args and astq.is_name(c.args[0], it_name)]
-    # emissions: what the loop appends to the output, in order
-    emitted: list[tuple[ast.AST, ast.AST]] = []
-    for c in astq.calls(loop):
-        if isinstance(c.func, ast.Attribute) and c.func.attr == "append" and len(c.args) == 1:
-            emitted.append((c.args[0], c))
-        elif isinstance(c.func, ast.Attribute) and c.func.attr == "extend" and len(c.args) == 1 and isinstance(c.args[0], (ast.List, ast.Tuple)):
-            emitted += [(x, c) for x in c.args[0].elts]
-    for n in ast.walk(loop):
-        if isinstance(n, ast.AugAssign) and isinstance(n.op, ast.Add) and isinstance(n.value, (ast.List, ast.Tuple)):
-            emitted += [(x, n) for x in n.value.elts]
-        elif isinstance(n, (ast.Yield,)) and n.value is not None:
-            emitted.append((n.value, n))
-    if not emitted:
-        raise AnalysisError(f"{mk.fq}: the loop over the split pieces emits nothing recognisable (emission slot)")
-    kinds = []
-    for x, at in sorted(emitted, key=lambda p: (p[0].lineno, p[0].col_offset)):  # type: ignore[attr-defined]
-        lv = mflow.leaves(x)
-        from_next = [l for l in lv if l.kind == "call" and l.key == "builtins.next"]
-        from_loop = [l for l in lv if not (l.kind == "call" and l.key == "builtins.next") and l.kind != "const"]
-        if from_next and not from_loop:
-            kinds.append(("kept-raw" if not any(l.ops for l in from_next) else "kept-but-" + "+".join(o.text() for l in from_next for o in l.ops), x, at))
-        elif from_loop and not from_next:
-            allq = all(any(o.kind == "unquote" for o in l.ops) for l in from_loop)
-            kinds.append(("free-unquoted" if allq else "free-raw", x, at))
-        else:
-            kinds.append(("mixed", x, at))
-    names = [k for k, _, _ in kinds]
-    free = [(x, at) for k, x, at in kinds if k == "free-unquoted"]
-    kept = [(x, at) for k, x, at in kinds if k == "kept-raw"]
-    shape_ok = sorted(names) == ["free-unquoted", "kept-raw"]
-    ctx.ob("R15.3", "per iteration the loop emits one unquoted free piece and one untouched kept escape", shape_ok, f"emissions: {[(k, norm(x)[:50]) for k, x, _ in kinds]}", mk, loop, "emission kinds")
-    every_iter = False
-    order = False
-    if shape_ok and len(nexts) == 1 and head is not None:
-        nxn = icfg.node_of(nexts[0])
-        body_first = [s_ for s_, l in head.succs if l == "T"]
-        every_iter = nxn is not None and bool(body_first) and (body_first[0] is nxn or head.id not in icfg.reach(body_first, avoid_nodes=[nxn]))
-        fn_, kn_ = icfg.node_of(free[0][1]), icfg.node_of(kept[0][1])
-        if fn_ is not None and kn_ is not None:
-            if fn_ is kn_:
-                order = (free[0][0].lineno, free[0][0].col_offset) < (kept[0][0].lineno, kept[0][0].col_offset)  # type: ignore[attr-defined]
-            else:
-                order = kn_.id in icfg.reach(fn_, avoid_nodes=[head]) and fn_.id not in icfg.reach(kn_, avoid_nodes=[head])
-    ctx.ob("R15.3", "the kept escape is taken with exactly one next() on every iteration and emitted after the free piece", bool(shape_ok and len(nexts) == 1 and every_iter and order),
-           f"next({it_name}) calls in the loop: {len(nexts)}; on every iteration: {every_iter}; free piece emitted first: {order}", mk, nexts[0] if nexts else loop, "alternation order")
+    _alternation(ctx, mk, mflow, sc, inner, split_c)
     return use
+
+
+# ---------------------------------------------------------------------
+# the alternation of free and kept pieces in the partial unquoter
+#
+# ``pattern.split(value)`` with one capture group is [free, kept, free, ..., free]: even positions are free text,
+# odd positions are runs of kept escapes.  However the walk over that list is written, every even piece has to be
+# emitted unquoted, every odd piece untouched, in list order.  Recognised walks: an iterator consumed pairwise
+# (``for a in it: ... next(it, "")``), ``enumerate`` with a test on the index parity (loop or comprehension),
+# ``zip`` / ``zip_longest`` over the ``[::2]`` / ``[1::2]`` slices, and assignment to the ``[::2]`` slice.
+
+
+class _Unknown(Exception):
+    pass
+
+
+_INT_BIN = {
+    ast.Mod: lambda a, b: a % b, ast.BitAnd: lambda a, b: a & b, ast.Add: lambda a, b: a + b, ast.Sub: lambda a, b: a - b,
+    ast.Mult: lambda a, b: a * b, ast.FloorDiv: lambda a, b: a // b, ast.BitOr: lambda a, b: a | b, ast.BitXor: lambda a, b: a ^ b,
+}
+_INT_CMP = {
+    ast.Eq: lambda a, b: a == b, ast.NotEq: lambda a, b: a != b, ast.Lt: lambda a, b: a < b, ast.LtE: lambda a, b: a <= b,
+    ast.Gt: lambda a, b: a > b, ast.GtE: lambda a, b: a >= b, ast.Is: lambda a, b: a == b, ast.IsNot: lambda a, b: a != b,
+}
+
+
+class _Bound:
+    """a binding made on the iteration path that is being enumerated, with its value already classified."""
+
+    def __init__(self, d, alts: list[tuple]):
+        self.d = d
+        self.alts = alts
+        self.stmt = d.stmt
+        self.kind = "bound"
+        self.node = d.node
+
+
+class _Walk:
+    def __init__(self, mflow: Flow, sc: Scope, inner: ast.AST, split_c: ast.Call):
+        self.flow = mflow
+        self.sc = sc
+        self.inner = inner
+        self.split_c = split_c
+        self.comp_env: dict[str, tuple] = {}
+        self.loop_env: dict[int, dict[str, tuple]] = {}
+        self.index_names: set[str] = set()
+        self.parity: int | None = None
+        self.no_default: list[ast.AST] = []
+        self.path_env: dict[str, t.Any] | None = None
+        self.body_ids: set[int] = set()
+
+    # -- what an expression denotes ---------------------------------------
+    def _single_def(self, e: ast.Name):
+        node = self.sc.cfg.node_of(e)
+        ds = self.sc.rd.reaching(node, e.id) if node is not None else frozenset()
+        return next(iter(ds)) if len(ds) == 1 else None
+
+    def _fq(self, call: ast.Call) -> str | None:
+        d = dotted(call.func)
+        return self.flow.resolve(d, self.sc) if d else None
+
+    def is_split(self, e: ast.AST, depth: int = 0) -> bool:
+        if e is self.split_c:
+            return True
+        if depth > 4:
+            return False
+        if isinstance(e, ast.Call) and self._fq(e) in ("builtins.list", "builtins.tuple") and len(e.args) == 1 and not e.keywords:
+            return self.is_split(e.args[0], depth + 1)
+        if isinstance(e, ast.Name) and e.id not in self.comp_env:
+            d = self._single_def(e)
+            return d is not None and d.kind == "assign" and d.index is None and d.value is not None and self.is_split(d.value, depth + 1)
+        return False
+
+    def stream(self, e: ast.AST, depth: int = 0) -> tuple | None:
+        """('all',) the split list | ('par', p, padded) its [p::2] slice | ('iter', name) an iterator over it |
+        ('enum', stream, start) | ('zip', streams, longest, fill)."""
+        if depth > 4:
+            return None
+        if self.is_split(e):
+            return ("all",)
+        if isinstance(e, ast.Subscript) and isinstance(e.slice, ast.Slice) and self.is_split(e.value):
+            sl = e.slice
+            step = sl.step.value if isinstance(sl.step, ast.Constant) else None
+            lo = 0 if sl.lower is None else (sl.lower.value if isinstance(sl.lower, ast.Constant) else None)
+            if step == 2 and sl.upper is None and lo in (0, 1):
+                return ("par", lo, False)
+            return None
+        if isinstance(e, ast.BinOp) and isinstance(e.op, ast.Add) and isinstance(e.right, (ast.List, ast.Tuple)) and len(e.right.elts) == 1 and astq.const_str(e.right.elts[0]) == "":
+            st = self.stream(e.left, depth + 1)
+            return ("par", st[1], True) if st is not None and st[0] == "par" else None
+        if isinstance(e, ast.Call):
+            fq = self._fq(e)
+            if any(isinstance(a, ast.Starred) for a in e.args):
+                return None
+            if fq == "builtins.enumerate" and e.args:
+                start = astq.arg_or_kw(e, 1, "start")
+                if start is not None and not (isinstance(start, ast.Constant) and isinstance(start.value, int)):
+                    return None
+                sub = self.stream(e.args[0], depth + 1)
+                return ("enum", sub, start.value if start is not None else 0) if sub is not None else None
+            if fq in ("builtins.zip", "itertools.zip_longest") and len(e.args) >= 2:
+                subs = tuple(self.stream(a, depth + 1) for a in e.args)
+                if any(x is None for x in subs):
+                    return None
+                fill = astq.kwarg(e, "fillvalue")
+                return ("zip", subs, fq != "builtins.zip", astq.const_str(fill) if fill is not None else None)
+            if fq == "builtins.iter" and len(e.args) == 1 and self.is_split(e.args[0]):
+                return ("iter", None)
+            if fq in ("builtins.list", "builtins.tuple") and len(e.args) == 1:
+                return self.stream(e.args[0], depth + 1)
+            return None
+        if isinstance(e, ast.Name) and e.id not in self.comp_env:
+            d = self._single_def(e)
+            if d is not None and d.kind == "assign" and d.index is None and d.value is not None:
+                st = self.stream(d.value, depth + 1)
+                if st is not None and st[0] == "iter":
+                    return ("iter", e.id)
+                return st
+        return None
+
+    def bind(self, target: ast.AST, st: tuple, env: dict[str, tuple]) -> bool:
+        """element descriptors for the loop / comprehension targets; False when the shape is not modelled."""
+        if st[0] == "all" and isinstance(target, ast.Name):
+            env[target.id] = ("piece", None)
+            return True
+        if st[0] == "par" and isinstance(target, ast.Name):
+            env[target.id] = ("piece", st[1])
+            return True
+        if st[0] == "iter" and isinstance(target, ast.Name):
+            env[target.id] = ("piece", 0)  # provided exactly one next() per iteration: judged with the paths
+            return True
+        if st[0] == "enum" and isinstance(target, (ast.Tuple, ast.List)) and len(target.elts) == 2 and isinstance(target.elts[0], ast.Name):
+            env[target.elts[0].id] = ("index",)
+            self.index_names.add(target.elts[0].id)
+            sub = st[1]
+            if sub[0] == "all" and isinstance(target.elts[1], ast.Name):
+                env[target.elts[1].id] = ("piece", "index", st[2])
+                return True
+            return False
+        if st[0] == "zip" and isinstance(target, (ast.Tuple, ast.List)) and len(target.elts) == len(st[1]):
+            return all(self.bind(tg, sub, env) for tg, sub in zip(target.elts, st[1]))
+        return False
+
+    # -- integer / truth evaluation under a parity of the index ------------
+    def _int(self, e: ast.AST, k: int, depth: int = 0):
+        if depth > 8:
+            raise _Unknown
+        if isinstance(e, ast.Constant) and isinstance(e.value, (int, bool)) and e.value is not None:
+            return e.value
+        if isinstance(e, ast.Name):
+            if e.id in self.index_names:
+                return k
+            if e.id in self.comp_env:
+                raise _Unknown
+            d = self._single_def(e)
+            if d is not None and d.kind in ("assign", "walrus") and d.index is None and d.value is not None:
+                return self._int(d.value, k, depth + 1)
+            raise _Unknown
+        if isinstance(e, ast.NamedExpr):
+            return self._int(e.value, k, depth + 1)
+        if isinstance(e, ast.BinOp) and type(e.op) in _INT_BIN:
+            try:
+                return _INT_BIN[type(e.op)](self._int(e.left, k, depth + 1), self._int(e.right, k, depth + 1))
+            except (ZeroDivisionError, TypeError):
+                raise _Unknown
+        if isinstance(e, ast.UnaryOp) and isinstance(e.op, ast.Not):
+            return not self._int(e.operand, k, depth + 1)
+        if isinstance(e, ast.UnaryOp) and isinstance(e.op, ast.USub):
+            return -self._int(e.operand, k, depth + 1)
+        if isinstance(e, ast.BoolOp):
+            vals = [bool(self._int(v, k, depth + 1)) for v in e.values]
+            return all(vals) if isinstance(e.op, ast.And) else any(vals)
+        if isinstance(e, ast.Compare):
+            left = self._int(e.left, k, depth + 1)
+            for op, c in zip(e.ops, e.comparators):
+                if type(op) not in _INT_CMP:
+                    raise _Unknown
+                right = self._int(c, k, depth + 1)
+                if not _INT_CMP[type(op)](left, right):
+                    return False
+                left = right
+            return True
+        if isinstance(e, ast.Call) and self._fq(e) in ("builtins.bool", "builtins.int") and len(e.args) == 1:
+            return self._int(e.args[0], k, depth + 1)
+        raise _Unknown
+
+    def truth(self, e: ast.AST) -> bool | None:
+        if self.parity is None:
+            return None
+        try:
+            vals = {bool(self._int(e, self.parity + 2 * j)) for j in (0, 1, 2, 7, 50)}
+        except _Unknown:
+            return None
+        return vals.pop() if len(vals) == 1 else None
+
+    # -- what is emitted ---------------------------------------------------
+    def classify(self, x: ast.AST, depth: int = 0) -> list[tuple]:
+        """alternatives (descriptor, ops): descriptor ('piece', parity) | ('const', v) | ('other', text)."""
+        if depth > 8:
+            return [(("other", norm(x)[:40]), ())]
+        if isinstance(x, ast.Constant):
+            return [(("const", x.value), ())]
+        if isinstance(x, ast.IfExp):
+            v = self.truth(x.test)
+            out = []
+            if v is not False:
+                out += self.classify(x.body, depth + 1)
+            if v is not True:
+                out += self.classify(x.orelse, depth + 1)
+            return out
+        if isinstance(x, ast.NamedExpr):
+            return self.classify(x.value, depth + 1)
+        if isinstance(x, ast.Name):
+            if x.id in self.comp_env:
+                return [(self._resolved(self.comp_env[x.id]), ())]
+            node = self.sc.cfg.node_of(x)
+            ds = self.sc.rd.reaching(node, x.id) if node is not None else frozenset()
+            if self.path_env is not None:
+                # on an enumerated iteration path: the binding made earlier on this very path wins; bindings made
+                # elsewhere in the loop body (other branch, earlier iteration) do not apply
+                if x.id in self.path_env:
+                    ds = frozenset([self.path_env[x.id]])
+                else:
+                    ds = frozenset(d for d in ds if d.kind == "for" or d.node is None or d.node.id not in self.body_ids)
+            out = []
+            for d in sorted(ds, key=lambda d: getattr(d.stmt, "lineno", 0)):
+                if isinstance(d, _Bound):
+                    out += d.alts
+                    continue
+                if d.kind == "for" and id(d.stmt) in self.loop_env and x.id in self.loop_env[id(d.stmt)]:
+                    out.append((self._resolved(self.loop_env[id(d.stmt)][x.id]), ()))
+                elif d.kind in ("assign", "walrus") and d.index is None and d.value is not None:
+                    out += self.classify(d.value, depth + 1)
+                else:
+                    out.append((("other", f"{x.id} bound by {d.kind}"), ()))
+            return out or [(("other", x.id), ())]
+        if isinstance(x, ast.Call):
+            fq = self._fq(x)
+            if fq in ("urllib.parse.unquote", "urllib.parse.unquote_plus") and x.args:
+                return [(dsc, ops + ("unquote",)) for dsc, ops in self.classify(x.args[0], depth + 1)]
+            if fq == "builtins.next" and x.args and isinstance(x.args[0], ast.Name):
+                st = self.stream(x.args[0])
+                if st is not None and st[0] == "iter":
+                    dflt = x.args[1] if len(x.args) > 1 else None
+                    if dflt is None or astq.const_str(dflt) != "":
+                        self.no_default.append(x)
+                    return [(("piece", 1), ())]
+        return [(("other", norm(x)[:40]), ())]
+
+    def _resolved(self, dsc: tuple) -> tuple:
+        if dsc[:2] == ("piece", "index"):
+            return ("piece", (self.parity - dsc[2]) % 2 if self.parity is not None else None)
+        return dsc
+
+    @staticmethod
+    def kind(dsc: tuple, ops: tuple) -> str:
+        if dsc[0] == "piece" and dsc[1] in (0, 1):
+            who = "free" if dsc[1] == 0 else "kept"
+            if not ops:
+                return f"{who}-raw"
+            if ops == ("unquote",):
+                return f"{who}-unquoted"
+            return f"{who}-but-" + "+".join(ops)
+        if dsc[0] == "const":
+            return "const-empty" if dsc[1] == "" else f"const {dsc[1]!r}"
+        if dsc[0] == "piece":
+            return "piece-of-unknown-position" + ("-unquoted" if ops else "")
+        return f"other `{dsc[1]}`"
+
+    # -- emission sites ----------------------------------------------------
+    @staticmethod
+    def emits_of(a: ast.AST) -> list[ast.AST]:
+        out: list[ast.AST] = []
+        for n in [a, *walk_no_nested(a)]:
+            if isinstance(n, ast.Call) and isinstance(n.func, ast.Attribute) and len(n.args) == 1 and not n.keywords:
+                if n.func.attr in ("append", "write", "add"):
+                    out.append(n.args[0])
+                elif n.func.attr == "extend" and isinstance(n.args[0], (ast.List, ast.Tuple)):
+                    out += list(n.args[0].elts)
+            elif isinstance(n, ast.AugAssign) and isinstance(n.op, ast.Add):
+                if isinstance(n.value, (ast.List, ast.Tuple)):
+                    out += list(n.value.elts)
+                elif isinstance(n.target, ast.Name):
+                    out.append(n.value)  # text accumulated with +=
+            elif isinstance(n, ast.Yield) and n.value is not None:
+                out.append(n.value)
+        return sorted(out, key=lambda x: (x.lineno, x.col_offset))  # type: ignore[attr-defined]
+
+    def nexts_of(self, a: ast.AST, it_name: str | None) -> int:
+        return sum(1 for n in [a, *walk_no_nested(a)] if isinstance(n, ast.Call) and self._fq(n) == "builtins.next" and n.args and astq.is_name(n.args[0], it_name))
+
+    def loop_paths(self, loop: ast.For) -> tuple[list[list], list[list], bool]:
+        """(paths through one iteration, paths leaving the loop, inner cycle seen); a path is a list of CFG nodes."""
+        cfg = self.sc.cfg
+        head = cfg.node_of(loop)
+        inside = {id(x) for st in loop.body for x in ast.walk(st)}
+        done: list[list] = []
+        left: list[list] = []
+        cyc = [False]
+        if head is None:
+            return done, left, True
+        stack = [(s_, [], frozenset()) for s_, l in head.succs if l == "T"]
+        steps = 0
+        while stack:
+            n, path, seen = stack.pop()
+            steps += 1
+            if steps > 4000:
+                raise AnalysisError("partial unquoter: loop body too branchy to enumerate")
+            if n is head:
+                done.append(path)
+                continue
+            if n is cfg.exit or n is cfg.raise_exit or (n.ast is not None and id(n.ast) not in inside):
+                left.append(path)
+                continue
+            if n.id in seen:
+                cyc[0] = True
+                continue
+            seen2 = seen | {n.id}
+            if n.kind == "test":
+                v = self.truth(n.ast)
+                labels = ["T", "F"] if v is None else (["T"] if v else ["F"])
+                for lab in labels:
+                    for s_ in cfg.succ(n, lab):
+                        stack.append((s_, path + [n], seen2))
+                continue
+            if n.kind == "loop":
+                cyc[0] = True
+            for s_, l in n.succs:
+                if l != "exc":
+                    stack.append((s_, path + [n], seen2))
+        return done, left, cyc[0]
+
+
+def _alternation(ctx: Ctx, mk: FuncInfo, mflow: Flow, sc: Scope, inner: ast.AST, split_c: ast.Call) -> None:
+    w = _Walk(mflow, sc, inner, split_c)
+    # every judged walk yields, per position parity (or per iteration for pairwise walks), the sequences of emissions
+    runs: list[tuple[str, list[str], bool, str]] = []  # (label, emitted kinds in order, complete, remark)
+    anchor: ast.AST | None = None
+    recognised = 0
+    unknown: list[str] = []
+
+    def expected(st: tuple, parity: int | None) -> list[str]:
+        if st[0] == "enum":
+            return ["free-unquoted"] if (parity - st[2]) % 2 == 0 else ["kept-raw"]
+        return ["free-unquoted", "kept-raw"]
+
+    def parities(st: tuple) -> list[int | None]:
+        return [0, 1] if st[0] == "enum" else [None]
+
+    def complete_stream(st: tuple) -> str:
+        """'' when the walk visits every piece of the list, else why not."""
+        if st[0] in ("iter", "enum"):
+            return ""
+        if st[0] == "zip":
+            pars = [x[1] if x[0] == "par" else None for x in st[1]]
+            if pars != [0, 1]:
+                return f"zip over {pars}, expected the [::2] and [1::2] slices in that order"
+            if st[2]:
+                return "" if st[3] == "" else f"zip_longest fills the missing last kept escape with {st[3]!r}, not ''"
+            return "" if st[1][1][2] else "zip stops with the shorter slice: the last free piece is dropped"
+        return "walk does not tell free from kept pieces"
+
+    for n in sorted([x for x in ast.walk(inner) if isinstance(x, (ast.For, ast.ListComp, ast.GeneratorExp, ast.SetComp, ast.Assign))], key=lambda x: (x.lineno, x.col_offset)):
+        if isinstance(n, ast.For):
+            st = w.stream(n.iter)
+            if st is None:
+                continue
+            env: dict[str, tuple] = {}
+            if not w.bind(n.target, st, env) or st[0] in ("all", "par"):
+                unknown.append(f"for over {st[0]}")
+                continue
+            w.loop_env[id(n)] = env
+            recognised += 1
+            anchor = anchor or n
+            why = complete_stream(st)
+            it_name = st[1] if st[0] == "iter" else None
+            for par in parities(st):
+                w.parity = par
+                done, left, cyc = w.loop_paths(n)
+                if cyc:
+                    raise AnalysisError(f"{mk.fq}: nested loop inside the walk over the split pieces (alternation slot)")
+                label = f"for/{st[0]}" + (f" index%2={par}" if par is not None else "")
+                if not done:
+                    runs.append((label, [], False, "no path completes an iteration"))
+                for path in done + left:
+                    kinds: list[str] = []
+                    amb = False
+                    nx = 0
+                    w.path_env = {}
+                    w.body_ids = {cn.id for cn in sc.cfg.nodes if cn.ast is not None and any(cn.ast is x_ for st_ in n.body for x_ in ast.walk(st_))}
+                    for node in path:
+                        if node.kind not in ("stmt", "test") or node.ast is None:
+                            continue
+                        nx += w.nexts_of(node.ast, it_name) if it_name else 0
+                        for x in w.emits_of(node.ast):
+                            alts = w.classify(x)
+                            amb = amb or len(alts) != 1
+                            kinds += [w.kind(*a) for a in alts[:1]] if len(alts) == 1 else ["one of " + "/".join(w.kind(*a) for a in alts)]
+                        for d in sc.rd.gen.get(node.id, []):
+                            if d.kind in ("assign", "walrus") and d.index is None and d.value is not None:
+                                # the value is classified where it is bound (it may mention the name's earlier binding)
+                                w.path_env[d.name] = _Bound(d, w.classify(d.value))
+                            else:
+                                w.path_env[d.name] = d
+                    w.path_env = None
+                    kinds = [k for k in kinds if k != "const-empty"]
+                    remark = why
+                    if any(path is p_ for p_ in left):
+                        remark = remark or "the loop is left before all pieces are emitted"
+                    if st[0] == "iter" and nx != 1:
+                        remark = remark or f"{nx} next({it_name}) calls on this path: the for target is not always a free piece"
+                    ok = not remark and not amb and kinds == expected(st, par)
+                    runs.append((label, kinds, ok, remark))
+            w.parity = None
+        elif isinstance(n, (ast.ListComp, ast.GeneratorExp, ast.SetComp)):
+            par_ = getattr(n, "_parent", None)
+            if isinstance(par_, ast.Assign) and any(isinstance(tg, ast.Subscript) for tg in par_.targets):
+                continue  # judged with the slice assignment
+            if len(n.generators) != 1:
+                continue
+            g = n.generators[0]
+            st = w.stream(g.iter)
+            if st is None:
+                continue
+            env = {}
+            saved = dict(w.comp_env)
+            if not w.bind(g.target, st, env) or st[0] in ("all", "par", "iter"):
+                unknown.append(f"comprehension over {st[0]}")
+                continue
+            w.comp_env.update(env)
+            recognised += 1
+            anchor = anchor or n
+            why = complete_stream(st)
+            for par in parities(st):
+                w.parity = par
+                label = f"comprehension/{st[0]}" + (f" index%2={par}" if par is not None else "")
+                remark = why
+                for cond in g.ifs:
+                    if w.truth(cond) is not True:
+                        remark = remark or f"`if {norm(cond)}` drops pieces"
+                elts = list(n.elt.elts) if isinstance(n.elt, (ast.Tuple, ast.List)) else [n.elt]
+                kinds = []
+                amb = False
+                for x in elts:
+                    alts = w.classify(x)
+                    amb = amb or len(alts) != 1
+                    kinds += [w.kind(*alts[0])] if len(alts) == 1 else ["one of " + "/".join(w.kind(*a) for a in alts)]
+                kinds = [k for k in kinds if k != "const-empty"]
+                runs.append((label, kinds, not remark and not amb and kinds == expected(st, par), remark))
+            w.parity = None
+            w.comp_env = saved
+        elif isinstance(n, ast.Assign) and len(n.targets) == 1 and isinstance(n.targets[0], ast.Subscript):
+            tst = w.stream(n.targets[0])
+            if tst is None or tst[0] != "par":
+                continue
+            v = n.value
+            if not (isinstance(v, (ast.ListComp, ast.GeneratorExp)) and len(v.generators) == 1 and not v.generators[0].ifs):
+                unknown.append("slice assignment from something other than a plain comprehension")
+                continue
+            g = v.generators[0]
+            sst = w.stream(g.iter)
+            env = {}
+            if sst is None or sst[0] != "par" or not w.bind(g.target, sst, env):
+                unknown.append("slice assignment from an unrecognised source")
+                continue
+            saved = dict(w.comp_env)
+            w.comp_env.update(env)
+            recognised += 1
+            anchor = anchor or n
+            alts = w.classify(v.elt)
+            k = w.kind(*alts[0]) if len(alts) == 1 else "one of " + "/".join(w.kind(*a) for a in alts)
+            w.comp_env = saved
+            same = tst[1] == sst[1]
+            runs.append((f"slice [{tst[1]}::2] rewritten in place", [k], same and tst[1] == 0 and k == "free-unquoted", "" if same else f"[{tst[1]}::2] is filled from [{sst[1]}::2]"))
+            if same and tst[1] == 0:
+                runs.append(("slice [1::2] left in place", ["kept-raw"], True, ""))
+    if not recognised:
+        raise AnalysisError(f"{mk.fq}: no recognised walk over `{norm(split_c)}` that tells free pieces from kept escapes (alternation slot){': ' + '; '.join(unknown) if unknown else ''}")
+    all_kinds = sorted({k for _, ks, _, _ in runs for k in ks})
+    shape_ok = all_kinds == ["free-unquoted", "kept-raw"]
+    ctx.ob("R15.3", "the walk over the split pieces emits free pieces unquoted and kept escapes untouched", shape_ok, f"emissions: {[(lab, ks) for lab, ks, _, _ in runs]}", mk, anchor, "emission kinds")
+    bad = [(lab, ks, rem) for lab, ks, ok, rem in runs if not ok]
+    dflt = not w.no_default
+    ctx.ob("R15.3", "every free piece is followed by its kept escape: each piece is emitted exactly once, in list order, on every path", bool(shape_ok and not bad and dflt),
+           (f"all {len(runs)} enumerated iteration path(s) emit the expected sequence" if not bad else f"deviating: {bad[:4]}") + ("" if dflt else f"; `{norm(w.no_default[0])}` has no '' default although the list ends with a free piece"),
+           mk, anchor, "alternation order")
+
+
+def _expanded(sc: Scope, e: ast.AST, depth: int = 0) -> str:
+    """normalised text of e with plain local aliases replaced by what they stand for (``start = e.start``,
+    ``start, end = e.start, e.end``, ``bad = e.object[start:end]``)."""
+    def sub(n: ast.AST, depth: int) -> ast.AST:
+        if isinstance(n, ast.Name) and isinstance(n.ctx, ast.Load) and depth < 5:
+            node = sc.cfg.node_of(n)
+            ds = sc.rd.reaching(node, n.id) if node is not None else frozenset()
+            if len(ds) == 1:
+                d = next(iter(ds))
+                v = None
+                if d.kind in ("assign", "walrus") and d.index is None:
+                    v = d.value
+                elif d.kind == "unpack" and isinstance(d.value, (ast.Tuple, ast.List)) and d.index is not None and d.index < len(d.value.elts):
+                    v = d.value.elts[d.index]
+                if isinstance(v, (ast.Attribute, ast.Name, ast.Subscript)):
+                    return sub(v, depth + 1)
+            return n
+        if isinstance(n, ast.Attribute):
+            return ast.Attribute(value=sub(n.value, depth), attr=n.attr, ctx=ast.Load())
+        if isinstance(n, ast.Subscript):
+            sl = n.slice
+            if isinstance(sl, ast.Slice):
+                sl = ast.Slice(lower=sub(sl.lower, depth) if sl.lower else None, upper=sub(sl.upper, depth) if sl.upper else None, step=sub(sl.step, depth) if sl.step else None)
+            else:
+                sl = sub(sl, depth)
+            return ast.Subscript(value=sub(n.value, depth), slice=sl, ctx=ast.Load())
+        return n
+    return norm(ast.unparse(ast.fix_missing_locations(sub(e, depth))))
 
 
 def _handler_shape(ctx: Ctx, hf: FuncInfo) -> tuple[bool, str]:
@@ -487,47 +1054,37 @@ def _handler_shape(ctx: Ctx, hf: FuncInfo) -> tuple[bool, str]:
         return False, "no parameter"
     e = hf.params[0]
     flow = Flow(ctx.repo, hf)
+    sc = flow.root
     rets = astq.returns_of(hf.node)
     if not rets:
         return False, "no return"
     facts = []
     ok = True
+    want = f"{e}.object[{e}.start:{e}.end]"
     for r in rets:
         v = r.value
         if isinstance(v, ast.Name):
             ds = [x for _, x in astq.assigns_to(hf.node, v.id)]
-            v = ds[0] if len(ds) == 1 else v
+            v = ds[0] if len(ds) == 1 and ds[0] is not None else v
         if not (isinstance(v, ast.Tuple) and len(v.elts) == 2):
             return False, f"returns `{norm(r.value) if r.value else None}`, not a (replacement, resume position) pair"
-        rep = flow.leaves(v.elts[0])
-        pos = v.elts[1]
-        if isinstance(pos, ast.Name):
-            ds = [x for _, x in astq.assigns_to(hf.node, pos.id)]
-            pos = ds[0] if len(ds) == 1 and ds[0] is not None else pos
-        pos_ok = norm(pos) == f"{e}.end"
+        rep = [x for l0 in flow.leaves(v.elts[0]) for x in expand(flow, l0)]
+        pos_text = _expanded(sc, v.elts[1])
+        pos_ok = pos_text == f"{e}.end"
         rep_ok = bool(rep)
         for l in rep:
-            n = l.node
             quoted = len(l.ops) == 1 and l.ops[0].kind == "quote"
-            sl = None
-            # the leaf of a slice is the sliced attribute; find the Subscript that produced it
-            for x in ast.walk(l.ops[0].node.args[0]) if quoted else ():
-                if isinstance(x, ast.Subscript) and isinstance(x.slice, ast.Slice):
-                    sl = x
-            if not quoted and l.ops and l.ops[0].kind == "quote":
-                quoted = False
-            exact = sl is not None and norm(sl.value) == f"{e}.object" and sl.slice.lower is not None and norm(sl.slice.lower) == f"{e}.start" and sl.slice.upper is not None and norm(sl.slice.upper) == f"{e}.end" and sl.slice.step is None
-            if not exact and quoted:
-                # slice taken in an earlier statement
-                arg0 = l.ops[0].node.args[0]
-                if isinstance(arg0, ast.Name):
-                    ds = [x for _, x in astq.assigns_to(hf.node, arg0.id)]
-                    if len(ds) == 1 and isinstance(ds[0], ast.Subscript) and isinstance(ds[0].slice, ast.Slice):
-                        s2 = ds[0]
-                        exact = norm(s2.value) == f"{e}.object" and s2.slice.lower is not None and norm(s2.slice.lower) == f"{e}.start" and s2.slice.upper is not None and norm(s2.slice.upper) == f"{e}.end"
-            rep_ok = rep_ok and quoted and exact and isinstance(n, ast.Attribute)
+            arg_text = None
+            if quoted and l.ops[0].node.args:
+                qsc = l.ops[0].sc or sc
+                a0 = l.ops[0].node.args[0]
+                if qsc is not sc and isinstance(a0, ast.Name) and a0.id in qsc.bind:
+                    a0, qsc = qsc.bind[a0.id]
+                arg_text = _expanded(qsc, a0)
+            exact = arg_text is not None and arg_text.replace(" ", "") == want.replace(" ", "")
+            rep_ok = rep_ok and quoted and exact
         ok = ok and pos_ok and rep_ok
-        facts.append(f"replacement {[l.text() for l in rep]} (quote of {e}.object[{e}.start:{e}.end]: {rep_ok}); resume at `{norm(pos)}` ({'ok' if pos_ok else f'expected {e}.end'})")
+        facts.append(f"replacement {[l.text() for l in rep]} (quote of {want}: {rep_ok}); resume at `{pos_text}` ({'ok' if pos_ok else f'expected {e}.end'})")
     return ok, "; ".join(facts)
 
 
@@ -556,7 +1113,7 @@ def _safe_obligations(ctx: Ctx, fi: FuncInfo, call: ast.Call, comp: str, S: str,
 def _r15_2(ctx: Ctx, folder: Folder, i2u: FuncInfo) -> None:
     flow = Flow(ctx.repo, i2u)
     _, elts = _unsplit_slots(flow, i2u)
-    quotes: dict[int, tuple[ast.Call, str]] = {}
+    quotes: dict[tuple[int, str], tuple[ast.Call, str, Scope | None]] = {}
 
     def accept(attr: str, l: Leaf):
         if attr in ("scheme", "port"):
@@ -567,13 +1124,13 @@ def _r15_2(ctx: Ctx, folder: Folder, i2u: FuncInfo) -> None:
             return ok, f"hostname as `{l.text()}`" + ("" if ok else ": expected encode('idna').decode('ascii')")
         if len(l.ops) != 1 or l.ops[0].kind != "quote":
             return False, f"parts.{attr} reaches urlunsplit as `{l.text()}`: expected exactly one quote()"
-        quotes[id(l.ops[0].node)] = (l.ops[0].node, attr)
+        quotes[(id(l.ops[0].node), attr)] = (l.ops[0].node, attr, l.ops[0].sc)
         return True, f"parts.{attr} through `{norm(l.ops[0].node)[:70]}`"
 
     seen = _route(ctx, "R15.2", i2u, flow, elts, accept)
     ctx.floor("R15.2", "iri_to_uri component routes", sum(len(v) for v in seen.values()), 7)
-    for call, attr in sorted(quotes.values(), key=lambda p: p[0].lineno):
-        S = _fold_safe(folder, i2u, call)
+    for call, attr, qsc in sorted(quotes.values(), key=lambda p: (p[0].lineno, p[1])):
+        S = _fold_safe(folder, i2u, call, module=_module_of(ctx.repo, call, i2u.module), scope=qsc)
         _safe_obligations(ctx, i2u, call, attr, S, f"quote of parts.{attr}", True, "")
     ctx.floor("R15.2", "iri_to_uri quote calls", len(quotes), 3)
 
@@ -587,21 +1144,24 @@ def _r15_2_reconstruct(ctx: Ctx, folder: Folder) -> None:
     for p in comp_of:
         if p not in g.params:
             raise AnalysisError(f"{g.fq}: parameter {p} not found")
-    qcalls = _calls_to(flow, g, {"urllib.parse.quote"})
+    # quote() calls that one of the three values passes through: written in the function or in a helper it calls
+    qsites: dict[int, tuple[ast.Call, set[str], Scope | None]] = {}
+    for c in sorted(astq.calls(g.node, nested=False), key=lambda c: (c.lineno, c.col_offset)):
+        for l0 in flow.leaves(c):
+            for l in expand(flow, l0):
+                if l.kind == "param" and l.key in comp_of:
+                    for o in l.ops:
+                        if o.kind == "quote":
+                            qsites.setdefault(id(o.node), (o.node, set(), o.sc))[1].add(l.key)
     nq = 0
-    covered: set[str] = set()
-    for c in qcalls:
-        src = [l for l in flow.leaves(c.args[0]) if l.kind == "param"] if c.args else []
-        comps = {comp_of[l.key] for l in src if l.key in comp_of}
-        names = sorted({l.key for l in src if l.key in comp_of})
-        if not comps:
-            continue
+    for c, pnames, qsc in sorted(qsites.values(), key=lambda p: (_module_of(repo, p[0], g.module).name != g.module.name, p[0].lineno, p[0].col_offset)):
         nq += 1
-        covered.update(names)
-        S = _fold_safe(folder, g, c)
-        for comp in sorted(comps):
+        S = _fold_safe(folder, g, c, module=_module_of(repo, c, g.module), scope=qsc)
+        for pname in sorted(pnames):
+            # one set of obligations per value (not per call: two values may share one quote() in a helper).
             # root_path / path arrive percent-decoded (PEP 3333 PATH_INFO / SCRIPT_NAME); query_string is the raw, still encoded bytes
-            _safe_obligations(ctx, g, c, comp, S, f"quote of {'/'.join(names)}", comp == "query", TERMINATORS[comp])
+            comp = comp_of[pname]
+            _safe_obligations(ctx, g, c, comp, S, f"quote of {pname}", comp == "query", TERMINATORS[comp])
     ctx.floor("R15.2", "get_current_url quote calls", nq, 1)
     # every use of the three parameters as a value is inside a quote()
     nuse = 0
@@ -610,7 +1170,7 @@ def _r15_2_reconstruct(ctx: Ctx, folder: Folder) -> None:
             if isinstance(n, ast.Name) and n.id == p and isinstance(n.ctx, ast.Load):
                 for top in escapes(flow, n):
                     nuse += 1
-                    lv = [l for l in flow.leaves(top) if l.kind == "param" and l.key == p]
+                    lv = [l for l0 in flow.leaves(top) for l in expand(flow, l0) if l.kind == "param" and l.key == p]
                     raw = [l for l in lv if not any(o.kind == "quote" for o in l.ops)]
                     ctx.ob("R15.2", f"get_current_url: {p} is quoted before it joins the URL", not raw, f"`{norm(top)[:80]}`: {[l.text() for l in lv]}", g, top, f"get_current_url {p} use {norm(top)[:60]}")
     ctx.floor("R15.2", "get_current_url parameter uses", nuse, 3)
@@ -671,10 +1231,14 @@ def _r15_4(ctx: Ctx) -> None:
 
 
 def _stores(flow: Flow, fi: FuncInfo) -> list[tuple[str, ast.AST, ast.AST]]:
-    """(key, value expression, node) for every store under one of the text keys in fi (dict literal entry,
+    return _stores_in(fi.node)
+
+
+def _stores_in(fn: ast.AST) -> list[tuple[str, ast.AST, ast.AST]]:
+    """(key, value expression, node) for every store under one of the text keys in the function (dict literal entry,
     subscript assignment, setdefault / keyword)."""
     out = []
-    for n in walk_no_nested(fi.node):
+    for n in walk_no_nested(fn):
         if isinstance(n, ast.Dict):
             for k, v in zip(n.keys, n.values):
                 if k is not None and astq.const_str(k) in TEXT_KEYS:
@@ -695,8 +1259,8 @@ def _stores(flow: Flow, fi: FuncInfo) -> list[tuple[str, ast.AST, ast.AST]]:
     return sorted(out, key=lambda t_: (t_[2].lineno, t_[2].col_offset))  # type: ignore[attr-defined]
 
 
-def _judge_store(flow: Flow, value: ast.AST) -> tuple[bool, str, list[Leaf]]:
-    lv = [x for l in flow.leaves(value) for x in expand(flow, l)]
+def _judge_store(flow: Flow, value: ast.AST, sc: Scope | None = None) -> tuple[bool, str, list[Leaf]]:
+    lv = [x for l in flow.leaves(value, sc) for x in expand(flow, l)]
     bad = []
     shown = []
     for l in lv:
@@ -714,7 +1278,8 @@ _CLASS_WORD = {"T": "tunnelled", "A": "ASCII", "B": "bytes", "D": "decoded text 
 
 
 def _read_sites(flow: Flow, fi: FuncInfo) -> list[tuple[str, ast.AST]]:
-    """reads of the text keys: direct (``environ.get("PATH_INFO")``) or through a nested helper called with the key."""
+    """reads of the text keys: direct (``environ.get("PATH_INFO")``) or through a helper (nested function, method of
+    the class, module-level function) called with the key."""
     out = []
     for n in ast.walk(fi.node):
         if isinstance(n, (ast.Subscript, ast.Call)):
@@ -725,7 +1290,7 @@ def _read_sites(flow: Flow, fi: FuncInfo) -> list[tuple[str, ast.AST]]:
             if er is not None and er[0] in TEXT_KEYS:
                 out.append((er[0], n))
                 continue
-            if isinstance(n, ast.Call) and isinstance(n.func, ast.Name) and sc.lookup_nested(n.func.id) is not None:
+            if isinstance(n, ast.Call) and any(astq.const_str(a) in TEXT_KEYS for a in n.args) and flow.callee_scope(n, sc) is not None:
                 ks = [astq.const_str(a) for a in n.args if astq.const_str(a) in TEXT_KEYS]
                 if ks:
                     out.append((ks[0], n))
@@ -782,14 +1347,10 @@ def _r15_5(ctx: Ctx) -> None:
             continue
         if not any(k in fi.module.source for k in TEXT_KEYS):
             continue
-        flow = None
-        for n in ast.walk(fi.node):
-            if isinstance(n, ast.Constant) and n.value in TEXT_KEYS:
-                flow = flow or Flow(repo, fi)
-                break
-        if flow is None:
+        if not any(isinstance(n, ast.Constant) and n.value in TEXT_KEYS for n in ast.walk(fi.node)):
             continue
         try:
+            flow = Flow(repo, fi)
             raw = []
             for k, site in _read_sites(flow, fi):
                 for top in escapes(flow, site):
@@ -802,12 +1363,27 @@ def _r15_5(ctx: Ctx) -> None:
                     raw.append(f"store {k}: {fact[:80]}")
             if raw:
                 ctx.note(f"R15.5 observation (outside the statement's scope, not judged): {fi.fq} uses tunnelled text as is: {sorted(set(raw))[:4]}")
-        except AnalysisError:
+        except Exception:  # observations are notes, never verdicts: a shape the origin analysis cannot read is skipped
             continue
 
 
 # ---------------------------------------------------------------------
 # R15.6  DispatcherMiddleware
+
+
+def _env_name(fn: ast.AST, skip_receiver: bool) -> str | None:
+    a = fn.args  # type: ignore[attr-defined]
+    ps = [x.arg for x in a.posonlyargs + a.args]
+    if skip_receiver and ps and ps[0] in ("self", "cls"):
+        ps = ps[1:]
+    return ps[0] if ps else None
+
+
+def _passes(call: ast.Call, name: str | None) -> bool:
+    """the call hands the mapping ``name`` itself on (not ``name.get(...)`` / ``name[...]``)."""
+    if name is None or (isinstance(call.func, ast.Attribute) and astq.is_name(call.func.value, name)):
+        return False
+    return any(astq.is_name(a, name) for a in call.args) or any(astq.is_name(k.value, name) for k in call.keywords)
 
 
 def _r15_6(ctx: Ctx) -> None:
@@ -816,46 +1392,99 @@ def _r15_6(ctx: Ctx) -> None:
     ctx.saw(fi)
     flow = Flow(repo, fi)
     cfg = flow.root.cfg
-    st = [(k, v, n) for k, v, n in _stores(flow, fi) if k in ("SCRIPT_NAME", "PATH_INFO")]
+    env_param = _env_name(fi.node, True)
+
+    # helpers that receive the environ itself (one level): their stores / hand-offs count as happening at the call
+    env_helpers: list[tuple[ast.Call, Scope, str]] = []
+    for c in astq.calls(fi.node, nested=False):
+        if not _passes(c, env_param):
+            continue
+        hsc = flow.callee_scope(c, flow.root)
+        if hsc is None:
+            continue
+        hname = next((p for p, (arg, _) in hsc.bind.items() if astq.is_name(arg, env_param)), None)
+        if hname is not None:
+            env_helpers.append((c, hsc, hname))
+
+    # (key, value, node for the report, scope of the value, anchor in __call__ or None if not on every path of the helper)
+    sites: list[tuple[str, ast.AST, ast.AST, Scope, ast.AST | None]] = []
+    for k, v, n in _stores(flow, fi):
+        if k in ("SCRIPT_NAME", "PATH_INFO"):
+            sites.append((k, v, n, flow.root, n))
+    for c, hsc, hname in env_helpers:
+        hst = [(k, v, n) for k, v, n in _stores_in(hsc.fn) if k in ("SCRIPT_NAME", "PATH_INFO")]
+        for k, v, n in hst:
+            nodes = [x for x in (hsc.cfg.node_of(n2) for k2, _, n2 in hst if k2 == k) if x is not None]
+            always = bool(nodes) and hsc.cfg.exit.id not in hsc.cfg.reach(avoid_nodes=nodes)
+            sites.append((k, v, n, hsc, c if always else None))
     by_key: dict[str, list] = {}
-    for k, v, n in st:
-        by_key.setdefault(k, []).append((v, n))
+    for k, v, n, sc, anchor in sites:
+        by_key.setdefault(k, []).append(anchor)
     for k in ("SCRIPT_NAME", "PATH_INFO"):
         if k not in by_key:
             raise AnalysisError(f"{fi.fq}: no store of {k} (dispatcher slot)")
     nst = 0
-    for k, v, node in st:
+    for k, v, node, sc, _ in sites:
         nst += 1
-        ok, fact, lv = _judge_store(flow, v)
+        ok, fact, lv = _judge_store(flow, v, sc)
         # untouched pieces: no operation at all is needed; an encode/decode round trip that nets to T is accepted by the class
         ctx.ob("R15.6", f"dispatcher writes back tunnelled {k}", ok, fact, fi, node, f"dispatcher writes {k}")
         env = [l.key for l in lv if l.kind == "environ"]
         if k == "SCRIPT_NAME":
             first_sn = env.index("SCRIPT_NAME") if "SCRIPT_NAME" in env else None
             first_pi = env.index("PATH_INFO") if "PATH_INFO" in env else None
-            ok2 = first_sn is not None and first_pi is not None and first_sn < first_pi
-            ctx.ob("R15.6", "new SCRIPT_NAME = old SCRIPT_NAME followed by the matched part of PATH_INFO", ok2, f"environ pieces in concatenation order: {env}", fi, node, "dispatcher SCRIPT_NAME composition")
+            # a segment peeled off the right end belongs to the remainder, never to the matched prefix
+            tails = [l.text() for l in lv if l.kind == "environ" and l.key == "PATH_INFO" and "tail" in l.tags]
+            ok2 = first_sn is not None and first_pi is not None and first_sn < first_pi and not tails
+            ctx.ob("R15.6", "new SCRIPT_NAME = old SCRIPT_NAME followed by the matched part of PATH_INFO", ok2, f"environ pieces in concatenation order: {env}" + (f"; segments peeled off the right end (remainder) flow in: {len(tails)}" if tails else ""), fi, node, "dispatcher SCRIPT_NAME composition")
         else:
-            ok2 = "PATH_INFO" in env and "SCRIPT_NAME" not in env
-            ctx.ob("R15.6", "new PATH_INFO is made of pieces of the old PATH_INFO only", ok2, f"environ pieces: {env}", fi, node, "dispatcher PATH_INFO composition")
+            pi = [l for l in lv if l.kind == "environ" and l.key == "PATH_INFO"]
+            peeling = any("tail" in l.tags or "head" in l.tags for l in pi)
+            heads = [l for l in pi if "tail" not in l.tags] if peeling else []
+            ok2 = "PATH_INFO" in env and "SCRIPT_NAME" not in env and not heads
+            ctx.ob("R15.6", "new PATH_INFO is made of pieces of the old PATH_INFO only", ok2, f"environ pieces: {env}" + (f"; {len(heads)} of them are not segments peeled off the right end (the matched prefix flows in)" if heads else ""), fi, node, "dispatcher PATH_INFO composition")
     ctx.floor("R15.6", "dispatcher stores", nst, 2)
 
     # both stores happen on every path to the call that hands environ on
-    env_param = next((p for p in fi.params if p not in ("self", "cls")), None)
-    handoffs = [c for c in astq.calls(fi.node, nested=False) if any(astq.is_name(a, env_param) for a in c.args) and not (isinstance(c.func, ast.Attribute) and astq.is_name(c.func.value, env_param))]
+    helper_calls = {id(c) for c, _, _ in env_helpers}
+    handoffs: list[tuple[ast.Call, ast.AST]] = [(c, c) for c in astq.calls(fi.node, nested=False) if _passes(c, env_param) and id(c) not in helper_calls]
+    for c, hsc, hname in env_helpers:
+        handoffs += [(hc, c) for hc in astq.calls(hsc.fn, nested=False) if _passes(hc, hname) and flow.callee_scope(hc, hsc) is None]
     if not handoffs:
         raise AnalysisError(f"{fi.fq}: no call passing `{env_param}` on (hand-off slot)")
-    for c in handoffs:
-        cn = cfg.node_of(c)
+    for c, anchor in handoffs:
+        cn = cfg.node_of(anchor)
         for k in ("SCRIPT_NAME", "PATH_INFO"):
-            nodes = [cfg.node_of(n) for _, n in by_key[k]]
-            nodes = [x for x in nodes if x is not None]
+            nodes = [cfg.node_of(a) for a in by_key[k] if a is not None and a is not anchor]
+            nodes = [x for x in nodes if x is not None and x is not cn]
             ok = cn is not None and bool(nodes) and cn.id not in cfg.reach(avoid_nodes=nodes)
+            if not ok and anchor is not c and any(a is anchor for a in by_key[k]):
+                # store and hand-off live in the same helper: judged on the helper's own graph
+                hsc = next(h for hc_, h, _ in env_helpers if hc_ is anchor)
+                hn = hsc.cfg.node_of(c)
+                hs = [x for x in (hsc.cfg.node_of(n) for k2, _, n, sc2, _ in sites if k2 == k and sc2 is hsc) if x is not None]
+                ok = hn is not None and bool(hs) and hn.id not in hsc.cfg.reach(avoid_nodes=hs)
             ctx.ob("R15.6", f"{k} is stored on every path to the mounted app", ok, f"`{norm(c)}` is {'not ' if not ok else ''}dominated by the store(s) of {k}", fi, c, f"dispatcher {k} before hand-off")
 
-    # remainder accumulation: a piece peeled from the right end is prepended
+    # remainder accumulation: a piece peeled from the right end is prepended.  Looked for in __call__ and in the
+    # helpers it was followed into (the lookup loop may live in a private method).
+    scopes: list[Scope] = [flow.root] + [hsc for _, hsc, _ in env_helpers]
+    done = {id(s_.fn) for s_ in scopes}
+    for hfi in list(flow.inlined.values()):
+        if id(hfi.node) not in done:
+            done.add(id(hfi.node))
+            ctx.saw(hfi)
+            scopes.append(Scope(hfi.node, module=hfi.module, cls=hfi.cls))
     nacc = 0
-    for n in walk_no_nested(fi.node):
+    for sc in scopes:
+        nacc += _accumulations(ctx, fi, sc)
+    ctx.floor("R15.6", "remainder accumulation statements", nacc, 1)
+
+
+def _accumulations(ctx: Ctx, fi: FuncInfo, sc: Scope) -> int:
+    cfg = sc.cfg
+    nacc = 0
+    for n in walk_no_nested(sc.fn):
         if not (isinstance(n, ast.Assign) and len(n.targets) == 1 and isinstance(n.targets[0], ast.Name)):
             continue
         acc = n.targets[0].id
@@ -867,26 +1496,67 @@ def _r15_6(ctx: Ctx) -> None:
             def flat(e):
                 return flat(e.left) + flat(e.right) if isinstance(e, ast.BinOp) and isinstance(e.op, ast.Add) else [e]
             pieces = flat(val)
+        elif isinstance(val, ast.Call) and isinstance(val.func, ast.Attribute) and val.func.attr == "join" and len(val.args) == 1 and isinstance(val.args[0], (ast.Tuple, ast.List)):
+            sep = val.func.value
+            for i, x in enumerate(val.args[0].elts):
+                pieces += ([sep] if i else []) + [x]
         selfpos = [i for i, p in enumerate(pieces) if astq.is_name(p, acc)]
         if len(selfpos) != 1:
             continue
         peeled = None  # 'right' / 'left'
         ppos = None
         for i, p in enumerate(pieces):
-            if i == selfpos[0] or not isinstance(p, ast.Name):
+            if i == selfpos[0]:
                 continue
-            node = cfg.node_of(p)
-            for d in (flow.root.rd.reaching(node, p.id) if node is not None else ()):
-                if d.kind == "unpack" and isinstance(d.value, ast.Call) and isinstance(d.value.func, ast.Attribute):
-                    m = d.value.func.attr
-                    arity = len(d.target._parent.elts) if hasattr(d.target, "_parent") and isinstance(d.target._parent, (ast.Tuple, ast.List)) else 0  # type: ignore[union-attr]
-                    if m in ("rsplit", "rpartition") and d.index == arity - 1:
-                        peeled, ppos = "right", i
-                    elif m in ("split", "partition") and d.index == 0:
-                        peeled, ppos = "left", i
+            end = _peeled_end(sc, p)
+            if end is not None:
+                peeled, ppos = end, i
         if peeled is None:
             continue
         nacc += 1
         ok = (peeled == "right" and ppos < selfpos[0]) or (peeled == "left" and ppos > selfpos[0])
         ctx.ob("R15.6", "remainder keeps request order", ok, f"`{norm(n)}`: piece peeled from the {peeled} end at position {ppos}, accumulated `{acc}` at position {selfpos[0]}", fi, n, "dispatcher remainder order")
-    ctx.floor("R15.6", "remainder accumulation statements", nacc, 1)
+    return nacc
+
+
+def _peeled_end(sc: Scope, p: ast.AST, depth: int = 0) -> str | None:
+    """'right' when the expression is the last piece of an ``rsplit(sep, 1)`` / ``rpartition(sep)`` (taken by
+    unpacking or by index), 'left' for the first piece of ``split(sep, 1)`` / ``partition(sep)``."""
+
+    def of_call(call: ast.AST, index: int, arity: int | None) -> str | None:
+        if not (isinstance(call, ast.Call) and isinstance(call.func, ast.Attribute)):
+            return None
+        m = call.func.attr
+        width = 3 if m in ("partition", "rpartition") else 2
+        if arity is not None and arity != width:
+            return None
+        if m in ("rsplit", "rpartition") and index in (width - 1, -1):
+            return "right"
+        if m in ("split", "partition") and index == 0:
+            return "left"
+        return None
+
+    if isinstance(p, ast.Subscript) and isinstance(p.slice, ast.Slice):
+        return {"tail": "right"}.get(slice_peel(sc, p) or "")
+    if isinstance(p, ast.Subscript) and isinstance(p.slice, ast.Constant) and isinstance(p.slice.value, int):
+        base = p.value
+        if isinstance(base, ast.Name) and depth < 3:
+            node = sc.cfg.node_of(base)
+            ds = sc.rd.reaching(node, base.id) if node is not None else ()
+            ends = {of_call(d.value, p.slice.value, None) if d.kind == "assign" and d.index is None else None for d in ds}
+            return ends.pop() if len(ends) == 1 else None
+        return of_call(base, p.slice.value, None)
+    if not isinstance(p, ast.Name):
+        return None
+    node = sc.cfg.node_of(p)
+    ends = set()
+    for d in (sc.rd.reaching(node, p.id) if node is not None else ()):
+        if d.kind == "unpack" and d.index is not None:
+            par = getattr(d.target, "_parent", None)
+            arity = len(par.elts) if isinstance(par, (ast.Tuple, ast.List)) else None
+            ends.add(of_call(d.value, d.index, arity))
+        elif d.kind == "assign" and d.index is None and d.value is not None and depth < 3:
+            ends.add(_peeled_end(sc, d.value, depth + 1))
+        else:
+            ends.add(None)
+    return ends.pop() if len(ends) == 1 else None
